@@ -244,13 +244,12 @@ func impl(ops []string) []string {
 				outs[i] = "ok"
 			case "txn":
 				sender, _ := strconv.Atoi(w[2])
-				to, _ := strconv.Atoi(w[3])
 				value, _ := strconv.ParseUint(w[5], 10, 64)
 				fee, _ := strconv.ParseUint(w[6], 10, 64)
 				nonce, _ := strconv.ParseInt(w[7], 10, 64)
 				toID := "not-a-client-id"
 				if w[4] == "1" {
-					toID = idOf(to)
+					toID = idStr(w[3])
 				}
 				typ := map[string]int{"send": transaction.TxnTypeSend, "data": transaction.TxnTypeData, "sc": transaction.TxnTypeSmartContract, "invalid": 77}[w[1]]
 				input := ""
@@ -285,6 +284,24 @@ func impl(ops []string) []string {
 	return outs
 }
 
+// tok parses an id token: "7" = canonical id, "7u" = the UPPER-CASE spelling of the same 64-hex id.
+func tok(w string) (int, bool) {
+	if strings.HasSuffix(w, "u") {
+		n, _ := strconv.Atoi(strings.TrimSuffix(w, "u"))
+		return n, false
+	}
+	n, _ := strconv.Atoi(w)
+	return n, true
+}
+
+func idStr(w string) string {
+	n, canon := tok(w)
+	if canon {
+		return idOf(n)
+	}
+	return strings.ToUpper(idOf(n))
+}
+
 func idOf(i int) string {
 	if i >= 0 && i < nIDs {
 		return ids[i]
@@ -309,9 +326,8 @@ func scriptJSON(res string) string {
 			switch f[0] {
 			case "t", "s":
 				a, _ := strconv.Atoi(f[1])
-				b, _ := strconv.Atoi(f[2])
 				amt, _ := strconv.ParseUint(f[3], 10, 64)
-				in.Ops = append(in.Ops, scriptOp{K: f[0], From: idOf(a), To: idOf(b), Amt: amt})
+				in.Ops = append(in.Ops, scriptOp{K: f[0], From: idOf(a), To: idStr(f[2]), Amt: amt})
 			case "w":
 				k, _ := strconv.ParseUint(f[1], 10, 64)
 				v, _ := strconv.ParseUint(f[2], 10, 64)
@@ -346,6 +362,13 @@ func amount(r *rand.Rand, hint uint64) uint64 {
 		}
 		return uint64(r.Int63n(int64(hint%(1<<62)) + 1))
 	}
+}
+
+func up(r *rand.Rand) string {
+	if r.Intn(16) == 0 {
+		return "u"
+	}
+	return ""
 }
 
 func gen(prop string) func(r *rand.Rand, thorough bool, i int) []string {
@@ -422,13 +445,13 @@ func gen(prop string) func(r *rand.Rand, thorough bool, i int) []string {
 					case 1:
 						parts = append(parts, fmt.Sprintf("d,%d", r.Intn(nKeys)))
 					case 2:
-						parts = append(parts, fmt.Sprintf("s,%d,%d,%d", r.Intn(nIDs), r.Intn(nIDs+1), amount(r, 300)))
+						parts = append(parts, fmt.Sprintf("s,%d,%d%s,%d", r.Intn(nIDs), r.Intn(nIDs+1), up(r), amount(r, 300)))
 					default:
 						src := r.Intn(nIDs)
 						if r.Intn(2) == 0 {
 							src = []int{sender, 1}[r.Intn(2)] // the usual sources: txn sender, the contract itself
 						}
-						parts = append(parts, fmt.Sprintf("t,%d,%d,%d", src, r.Intn(nIDs+1), amount(r, 300)))
+						parts = append(parts, fmt.Sprintf("t,%d,%d%s,%d", src, r.Intn(nIDs+1), up(r), amount(r, 300)))
 					}
 				}
 				res = kind
@@ -436,7 +459,11 @@ func gen(prop string) func(r *rand.Rand, thorough bool, i int) []string {
 					res = kind + "|" + strings.Join(parts, ";")
 				}
 			}
-			ops = append(ops, fmt.Sprintf("txn %s %d %d %s %d %d %d %s", typ, sender, to, tv, value, feeV, nn, res))
+			toTok := strconv.Itoa(to)
+			if r.Intn(14) == 0 {
+				toTok += "u" // upper-case spelling of the recipient id
+			}
+			ops = append(ops, fmt.Sprintf("txn %s %d %s %s %d %d %d %s", typ, sender, toTok, tv, value, feeV, nn, res))
 			// optimistic nonce tracking (a wrong guess only makes a later txn invalid, which is also a case we want)
 			if nn == cur[sender]+1 && typ != "invalid" && (typ != "sc" || (res != "int" && res != "-")) && tv == "1" && value <= 1000 && feeV <= 1000 {
 				cur[sender] = nn
@@ -647,10 +674,13 @@ type tr struct {
 // queueOf: the settlement queue the transaction line implies (transfers, fee, signed transfers).
 func queueOf(w []string, feeOn bool) ([]tr, bool) {
 	sender, _ := strconv.Atoi(w[2])
-	to, _ := strconv.Atoi(w[3])
+	to, toCanon := tok(w[3])
 	value, _ := new(big.Int).SetString(w[5], 10)
 	fee, _ := new(big.Int).SetString(w[6], 10)
 	var q, sg []tr
+	if !toCanon && w[1] == "send" {
+		return nil, false // non-canonical recipient spelling: judged by the supply oracle (C01), not by the queue replay
+	}
 	switch w[1] {
 	case "send":
 		q = append(q, tr{sender, to, value})
@@ -662,7 +692,10 @@ func queueOf(w []string, feeOn bool) ([]tr, bool) {
 				f := strings.Split(o, ",")
 				if f[0] == "t" || f[0] == "s" {
 					a, _ := strconv.Atoi(f[1])
-					b, _ := strconv.Atoi(f[2])
+					b, canon := tok(f[2])
+					if !canon {
+						return nil, false
+					}
 					amt, _ := new(big.Int).SetString(f[3], 10)
 					if f[0] == "t" {
 						q = append(q, tr{a, b, amt})
@@ -704,6 +737,7 @@ func main() {
 			return 1200
 		},
 		Fixed: [][]string{
+			{"init 0 2:1000:0 3:600:0", "txn send 2 2u 1 10 0 1 -", "txn send 2 3u 1 7 0 2 -", "txn sc 2 1 1 0 0 3 ok|t,2,3u,5;t,3,2,1", "txn send 2 3u 1 0 0 1 -"},
 			{"init 1 2:1000:4 3:5:0", "txn send 2 3 1 100 10 5 -", "txn sc 2 1 1 0 10 6 ok|t,2,3,50;w,1,9;s,3,2,1", "txn sc 2 1 1 0 10 7 chg|w,1,1;t,1,3,5", "txn sc 2 1 1 0 10 8 int", "txn send 2 3 1 100 10 5 -"},
 			{"init 1 2:18446744073709551615:0 3:1:0", "txn send 2 3 1 1 0 1 -", "txn send 3 2 1 1 0 1 -", "txn send 3 2 1 2 0 1 -"},
 			{"init 1 2:100:0", "txn send 2 3 1 1 18446744073709551615 1 -", "txn send 2 3 1 4000000000000000001 0 1 -", "txn sc 2 1 1 0 1 1 ok|t,2,2,5", "txn sc 2 1 1 0 1 1 ok|t,2,3,5;t,3,4,5;t,4,2,6"},
